@@ -67,10 +67,10 @@ class Run:
         s["coverage"] = {k: list(v) for k, v in res.coverage.items()}
         self.tlc_runs.append(s)
         for a in require_actions:
-            if res.coverage.get(a, (0, 0))[0] == 0:
+            if res.coverage.get(a, (0, 0))[1] == 0:
                 raise MachineryError("vacuity: action %s never taken in %s" % (a, label))
         for k, v in res.coverage.items():
-            self.actions_cov[k] = self.actions_cov.get(k, 0) + v[0]
+            self.actions_cov[k] = self.actions_cov.get(k, 0) + v[1]
 
     def model_must_hold(self, res, label):
         """The spec of the (repaired) design must satisfy its properties; otherwise the model or the
@@ -127,7 +127,7 @@ class Run:
                 continue
             seen.add(path)
             if len(seen) <= 25:
-                print("VIOLATION property=%s replay=%s  %s" % (self.pid, path, msg))
+                print("VIOLATION property=%s replay=%s  %s" % (self.pid, path, msg[:400].replace("\n", " ")))
         cov = {
             "states": self.states,
             "transitions": self.transitions,
